@@ -149,6 +149,21 @@ impl TryFrom<&Ident> for SupportedLanguage {
     }
 }
 
+/// The lines of one doc string. `\n`, `\r\n` and a lone `\r` each end a line: all of them
+/// end a line comment in at least one of the target languages, so none of them may be
+/// left inside a generated comment line.
+pub(crate) fn comment_lines(comment: &str) -> Vec<&str> {
+    let mut lines = Vec::new();
+    let mut rest = comment;
+    while let Some(at) = rest.find(['\n', '\r']) {
+        lines.push(&rest[..at]);
+        let skip = if rest[at..].starts_with("\r\n") { 2 } else { 1 };
+        rest = &rest[at + skip..];
+    }
+    lines.push(rest);
+    lines
+}
+
 /// Language-specific state and processing.
 ///
 /// The `Language` implementation is allowed to maintain mutable state, and it
